@@ -646,6 +646,12 @@ func (x *c12) caseIgnoreResult() {
 	if d := time.Since(t0); d != 0 {
 		x.rec.Violate("tr-return-instant", "ignore-result", "fire-and-forget PerformTransaction returned after %v", d)
 	}
+	// the call has returned: the application builds its next request in the same message value
+	// (the retransmissions of the first one must still carry the first request's bytes)
+	if other, err := stun.Build(stun.TransactionID, stun.BindingRequest); err == nil && len(other.Raw) == len(msg.Raw) {
+		copy(msg.Raw, other.Raw)
+		msg.TransactionID = other.TransactionID
+	}
 	time.Sleep(fail + 5*time.Second)
 	want := answerAt + 1
 	if answerAt >= maxRtx {
